@@ -83,6 +83,8 @@ ExtraSels(g) ==
         SUnion(<<SAs(SAll(SMatch)), SMatch>>), SAs(SUnion(<<SMatch, SAll(SAll(SMatch))>>))}
   \cup UNION {{SRec(l, -1, SAll(SAs(SEdge))), SAs(SRec(l, -1, SUnion(<<SMatch, SAll(SEdge)>>))),
                SRec(l, -1, SAs(SAll(SEdge))), SRec(l, -1, SUnion(<<SMatch, SAll(SAs(SEdge))>>))} : l \in Limits}
+  \* ranges wider than the number of indices the compiled selector is willing to list (it then states no interests)
+  \cup {SRange(1, 5000, SMatch), SAll(SRange(0, 4200, SAll(SMatch))), SUnion(<<SRange(1, 5000, SMatch), SFields(<<a>>, <<SMatch>>)>>)}
   \* a stop-at condition that has to survive the steps of a sequence that are NOT edges
   \cup UNION {{SRec(l, st, SAll(SAll(SEdge))), SRec(l, st, SFields(<<a>>, <<SAll(SEdge)>>)),
                SRec(l, st, SAll(SFields(<<a>>, <<SEdge>>))), SRec(l, st, SUnion(<<SMatch, SAll(SAll(SEdge))>>)),
